@@ -172,6 +172,14 @@ PROPS = {
         "assumptions": ["patterns with '[', ']' or '\\' are outside the modelled fragment (the rule language leaves them unspecified); '**' glued to other characters in one segment is outside WFVal"],
         "explanation": "C03_compile_sound: for every well-formed stored pattern and EVERY path string the compiled regexp tokens decide exactly the segment-wise glob; C03_last_match_wins; C03_defaults (exact characterisation of the built-in rules); C03_marking (negationsAfter invariant of parsing, incl. the early break); C03_prune_sound under TailClosed + C03_cex_prune_star_tail. Tie: 'ignore' lane runs ParseIgnoreFileContent/Excludes next to the model and an independent Go segment-wise matcher.",
     },
+    "C10": {
+        "lanes": [
+            {"lane": "sanitise", "quick": 2500, "thorough": 60000},
+        ],
+        "trusted_base": [STDLIB, FSMODEL, "dirhash is modelled as 'opens and reads every non-directory below the package root' (hashable); the content hash itself is an opaque injective name; filepath.EvalSymlinks = physical resolution with existence"],
+        "assumptions": ["open finding F31: a link whose target names the temporary work directory (absolute path, or relative through its name) validates and hashes before the rename and dangles after it (C10_cex_abs_link_into_workdir, C10_cex_rel_link_through_workdir_name); on a FAILED fetch/preparation the temporary directory stays behind (C10_cex_tmp_left_on_failure) - the builder is poisoned then, so no finished bundle contains it"],
+        "explanation": "C10_sanitised_before_rename / C10_sanitised_partial (after a successful preparation every binding below the package directory is a regular file, a directory, or a link resolving to a regular file inside the package, and nothing the ignore rules exclude is left), C10_links_resolve_after_rename_partial (links still resolve after the rename when their targets are local: relative, '..' first, not above the package), C10_fail_on_dangling / _escape / _special + propagation lemmas (such content makes the build fail), C10_hash_rejects_bad_links, C10_no_tmp_left (success leaves no temporary directory), C10_frame / C10_frame_ensure (nothing outside the work and final directories changes), C10_only_deletes, C10_ignored_removed*. Tie: 'sanitise' lane: one fetched tree per real build, whole-arena filesystem comparison with the model (also on failure) + physical-resolution walk of the finished package directory.",
+    },
     "C11": {
         "lanes": [
             {"lane": "resolve", "quick": 2000, "thorough": 40000},
